@@ -55,11 +55,14 @@ HSetServers(e) ==
   LET srv2 == ListEdit(srv, q, e.list)
       all == DOMAIN srv2
   IN
-  IF Len(e.list) = 0 \/ \E id \in DOMAIN q : q[id].st = "tosend" /\ ~(q[id].tcp /\ q[id].qsrv # 0) THEN OutOfScope
+  IF Len(e.list) = 0 THEN OutOfScope
   ELSE /\ srv' = srv2
        /\ owedF' = [s \in all |-> IF s \in DOMAIN owedF THEN owedF[s] ELSE 0]
        /\ owedO' = [s \in all |-> IF s \in DOMAIN owedO THEN owedO[s] ELSE 0]
-       /\ q' = DropDoneProbes(q)
+       \* a query waiting to be re-sent to a particular server (EDNS downgrade, deferred to the end of the batch being
+       \* processed) goes to any server if that one is no longer listed
+       /\ q' = DropDoneProbes([id \in DOMAIN q |-> IF q[id].st = "tosend" /\ q[id].reqsrv # 0 /\ q[id].reqsrv \notin SeqSet(e.list)
+                                                  THEN [q[id] EXCEPT !.reqsrv = 0] ELSE q[id]])
        /\ now' = e.now
        /\ proc' = [proc EXCEPT !.ss = e.depth + 1]       \* nesting level at which the list edit runs
        /\ UNCHANGED <<cfg, fdi, oos, xvars>> /\ Acc
